@@ -1,6 +1,7 @@
 import XV.Lemmas.Assoc
 import XV.Lemmas.ChainFrame
 import XV.Model.Snapshot
+import XV.Lemmas.SnapRun
 /-!
 C18 — snapshot reads return a key's value as of the chosen main-chain block.
 Theorems about the backwards walk `XV.Snapshot.walkBack` (= `xModSnapshot.Get`):
@@ -171,5 +172,136 @@ example :
     walkBack e [3] confH 2 "k" 5 (some (3, 0)) = some (1, 0) ∧
     walkBack e [3] confH 3 "k" 5 (some (3, 0)) = some (2, 0) ∧
     walkBack e [3] confH 0 "k" 5 (some (3, 0)) = none := by decide
+
+-- ================================================================== the closing induction over whole histories
+
+/-- **a snapshot taken at block B returns what the live reader returned when B was the tip.**
+`s`: the state at main-chain block B (height `hB`), empty pool; every version it shows was written by a transaction
+that `confH` (the ledger's transaction → block height table) confirms at or below `hB`. On top of it: ANY sequence of
+further blocks `bs` (`Extends`: each applied by `todoBlock`, or by `play` on an empty pool), whose transactions
+`confH` confirms above `hB`; then ANY sequence of submissions (`Pends`: `doTx`, admitted or refused), the pending
+transactions being unknown to `confH`. The environment knows every transaction under its id (`EnvIds`).
+Then for EVERY key — created, overwritten, deleted, re-created, written several times in one block or in one
+transaction, with pending writes on top — the snapshot read at height `hB` on the final state `s'` is exactly the
+live read `curVer s key` of then, for every fuel ≥ (number of later transactions, confirmed or pending, that write
+the key) + 1. -/
+theorem snapshot_at_block_eq_live_then (e : Env) (hids : EnvIds e) (s s1 s' : St) (confH : Nat → Option Nat)
+    (hB : Nat) (bs : List Block)
+    (hpool : s.pool = [])
+    (hconf : ∀ key v, curVer s key = some v → ∃ bh, confH v.1 = some bh ∧ bh ≤ hB)
+    (hext : Extends e s bs s1)
+    (hhigh : ∀ b ∈ bs, ∀ i ∈ b.txs, ∃ bh, confH i = some bh ∧ hB < bh)
+    (hpend : Pends e s1 s')
+    (hfresh : ∀ i ∈ s'.pool, confH i = none)
+    (key : String) (fuel : Nat) (hfuel : nWrites e (blocksTxs bs ++ s'.pool) key + 1 ≤ fuel) :
+    snapshotGet e s' confH hB key fuel = curVer s key := by
+  obtain ⟨r1, r2, r3⟩ := hext.run
+  obtain ⟨l, p1, p2, p3⟩ := hpend.run
+  rw [r3, hpool, List.nil_append] at p1
+  rw [r2] at p2 p3
+  have hrun : RunV e (blocksTxs bs ++ l) (curVer s) := (RunV_append e _ _ _).mpr ⟨r1, p2⟩
+  unfold snapshotGet
+  rw [p3, ← runV_append, p1]
+  rw [p1] at hfresh hfuel
+  apply walkBack_run e hids l confH hB key (curVer s) (blocksTxs bs ++ l) _ hrun _ fuel hfuel
+  · intro v hv
+    obtain ⟨bh, hb, hle⟩ := hconf key v hv
+    refine ⟨fun hm => ?_, bh, hb, hle⟩
+    rw [hfresh _ hm] at hb; cases hb
+  · intro i hi _
+    rcases List.mem_append.mp hi with hi | hi
+    · obtain ⟨b, hb, hib⟩ := (mem_blocksTxs bs i).mp hi
+      exact Or.inr (hhigh b hb i hib)
+    · exact Or.inl hi
+
+/-- the same with the coarse fuel bound: total number of later transactions (confirmed and pending) + 1 -/
+theorem snapshot_at_block_eq_live_then_total (e : Env) (hids : EnvIds e) (s s1 s' : St)
+    (confH : Nat → Option Nat) (hB : Nat) (bs : List Block)
+    (hpool : s.pool = [])
+    (hconf : ∀ key v, curVer s key = some v → ∃ bh, confH v.1 = some bh ∧ bh ≤ hB)
+    (hext : Extends e s bs s1)
+    (hhigh : ∀ b ∈ bs, ∀ i ∈ b.txs, ∃ bh, confH i = some bh ∧ hB < bh)
+    (hpend : Pends e s1 s')
+    (hfresh : ∀ i ∈ s'.pool, confH i = none)
+    (key : String) (fuel : Nat) (hfuel : (blocksTxs bs).length + s'.pool.length + 1 ≤ fuel) :
+    snapshotGet e s' confH hB key fuel = curVer s key := by
+  apply snapshot_at_block_eq_live_then e hids s s1 s' confH hB bs hpool hconf hext hhigh hpend hfresh key fuel
+  have := nWrites_le e (blocksTxs bs ++ s'.pool) key
+  rw [List.length_append] at this
+  omega
+
+/-- **the tip snapshot never exposes pending, unconfirmed writes**: with B the current tip (no further block), the
+snapshot at the tip height on the state with any pending transactions applied reads every key as the state
+without the pool's effects does -/
+theorem tip_snapshot_hides_pending (e : Env) (hids : EnvIds e) (s s' : St) (confH : Nat → Option Nat) (hB : Nat)
+    (hpool : s.pool = [])
+    (hconf : ∀ key v, curVer s key = some v → ∃ bh, confH v.1 = some bh ∧ bh ≤ hB)
+    (hpend : Pends e s s')
+    (hfresh : ∀ i ∈ s'.pool, confH i = none)
+    (key : String) (fuel : Nat) (hfuel : nWrites e s'.pool key + 1 ≤ fuel) :
+    snapshotGet e s' confH hB key fuel = curVer s key :=
+  snapshot_at_block_eq_live_then e hids s s s' confH hB [] hpool hconf (Extends.refl s)
+    (fun _ hb => by cases hb) hpend hfresh key fuel (by simpa [blocksTxs] using hfuel)
+
+-- ------------------------------------------------------------------ a history with deletions and re-creations
+-- key "k": created by tx 1 (block 1, height 1); block 2 (height 2) = tx 2 deletes it, tx 3 re-creates it, tx 4
+-- overwrites it (three writes of one key inside one block); block 3 (height 3) = tx 5 deletes it; block 4 (height 4) =
+-- tx 6, which re-creates AND overwrites it inside one transaction (versions (6,0), (6,1)), and creates "j";
+-- pending: tx 7 deletes "k" again, tx 8 overwrites "j", tx 9 (refused: stale read of "k").
+private def hEnv : Env := {
+  txs := [
+    (1, ⟨1, false, [], [], [⟨"k", none⟩], [⟨"k", "a", false⟩]⟩),
+    (2, ⟨2, false, [], [], [⟨"k", some (1, 0)⟩], [⟨"k", "", true⟩]⟩),
+    (3, ⟨3, false, [], [], [⟨"k", some (2, 0)⟩], [⟨"k", "b", false⟩]⟩),
+    (4, ⟨4, false, [], [], [⟨"k", some (3, 0)⟩], [⟨"k", "c", false⟩]⟩),
+    (5, ⟨5, false, [], [], [⟨"k", some (4, 0)⟩], [⟨"k", "", true⟩]⟩),
+    (6, ⟨6, false, [], [], [⟨"k", some (5, 0)⟩, ⟨"j", none⟩], [⟨"k", "d", false⟩, ⟨"j", "x", false⟩, ⟨"k", "e", false⟩]⟩),
+    (7, ⟨7, false, [], [], [⟨"k", some (6, 2)⟩], [⟨"k", "", true⟩]⟩),
+    (8, ⟨8, false, [], [], [⟨"j", some (6, 1)⟩], [⟨"j", "y", false⟩]⟩),
+    (9, ⟨9, false, [], [], [⟨"k", some (6, 2)⟩], [⟨"k", "z", false⟩]⟩)],
+  blocks := [(1, ⟨1, some 0, 1, [1], "m"⟩), (2, ⟨2, some 1, 2, [2, 3, 4], "m"⟩), (3, ⟨3, some 2, 3, [5], "m"⟩),
+             (4, ⟨4, some 3, 4, [6], "m"⟩)] }
+/-- transaction → height of its block on the chain 1 ← 2 ← 3 ← 4 -/
+private def hConf : Nat → Option Nat := fun i =>
+  if i = 1 then some 1 else if i = 2 ∨ i = 3 ∨ i = 4 then some 2 else if i = 5 then some 3 else
+  if i = 6 then some 4 else none
+/-- the state at block n -/
+private def hAt (n : Nat) : St := ((List.range n).foldl (fun st i => (play hEnv st 0 (hEnv.block (i + 1))).1) {})
+/-- the node: at block 4, transactions 7, 8, 9 submitted -/
+private def hNode : St := [7, 8, 9].foldl (fun st i => (doTx hEnv st 0 i).1) (hAt 4)
+
+-- the live reads, block by block: created, (deleted, re-created,) overwritten, deleted, re-created; the node itself
+-- shows the pending delete
+example : curVer (hAt 0) "k" = none ∧ curVer (hAt 1) "k" = some (1, 0) ∧ curVer (hAt 2) "k" = some (4, 0) ∧
+    curVer (hAt 3) "k" = some (5, 0) ∧ curVer (hAt 4) "k" = some (6, 2) ∧ curVer hNode "k" = some (7, 0) ∧
+    curVer (hAt 3) "j" = none ∧ curVer (hAt 4) "j" = some (6, 1) ∧ curVer hNode "j" = some (8, 0) ∧
+    hNode.pool = [7, 8] ∧ (hAt 2).ZU = [("k", (4, 0))] ∧ (hAt 3).ZU = [] ∧ (hAt 3).ZD = [("k", (5, 0))] := by decide
+
+-- the snapshot at every height on the final node (pending delete on top) returns exactly the version that was live
+-- at that block — computed on the model …
+example : ∀ h ∈ [0, 1, 2, 3, 4], ∀ key ∈ ["k", "j"],
+    snapshotGet hEnv hNode hConf h key 8 = curVer (hAt h) key := by decide
+
+-- … and the hypotheses of `snapshot_at_block_eq_live_then` hold for B = block 2 (height 2), two further blocks and the
+-- three submissions: the theorem applies (non-vacuity) and gives the same answer
+private theorem hExt : Extends hEnv (hAt 2) [hEnv.block 3, hEnv.block 4] (hAt 4) :=
+  Extends.play (bs := [hEnv.block 3]) 0 (hEnv.block 4)
+    (Extends.play (bs := []) 0 (hEnv.block 3) (Extends.refl (hAt 2)) (by decide) (by decide)) (by decide) (by decide)
+
+example : snapshotGet hEnv hNode hConf 2 "k" 4 = some (4, 0) :=
+  snapshot_at_block_eq_live_then hEnv (by decide) (hAt 2) (hAt 4) hNode hConf 2 [hEnv.block 3, hEnv.block 4]
+    (by decide) (confirmed_of_rows _ _ _ (by decide)) hExt (by decide) (pends_foldl hEnv 0 [7, 8, 9] (hAt 4))
+    (by decide) "k" 4 (by decide)
+
+-- the fuel bound is sharp: three later transactions write "k" (5, 6, 7), fuel 3 is not enough
+example : nWrites hEnv (blocksTxs [hEnv.block 3, hEnv.block 4] ++ hNode.pool) "k" = 3 ∧
+    snapshotGet hEnv hNode hConf 2 "k" 3 = none := by decide
+
+-- the tip snapshot hides the pending delete of "k" and the pending overwrite of "j"
+example : snapshotGet hEnv hNode hConf 4 "k" 2 = some (6, 2) ∧ snapshotGet hEnv hNode hConf 4 "j" 2 = some (6, 1) :=
+  ⟨tip_snapshot_hides_pending hEnv (by decide) (hAt 4) hNode hConf 4 (by decide) (confirmed_of_rows _ _ _ (by decide))
+      (pends_foldl hEnv 0 [7, 8, 9] (hAt 4)) (by decide) "k" 2 (by decide),
+   tip_snapshot_hides_pending hEnv (by decide) (hAt 4) hNode hConf 4 (by decide) (confirmed_of_rows _ _ _ (by decide))
+      (pends_foldl hEnv 0 [7, 8, 9] (hAt 4)) (by decide) "j" 2 (by decide)⟩
 
 end XV.C18
